@@ -183,6 +183,12 @@ Proof.
   - left. split; [assumption | now apply getN_updN_all_notin].
 Qed.
 
+Lemma notin_getN_none {V} (m : list (N * V)) k : ~ In k (map fst m) -> getN m k = None.
+Proof.
+  induction m as [|[k0 v0] m IH]; cbn [map fst getN]; intros H; [reflexivity|].
+  destruct (N.eqb_spec k0 k) as [->|Hne]; [exfalso; apply H; now left | apply IH; intros X; apply H; now right].
+Qed.
+
 
 (* ---- the comparison passes ------------------------------------------------------------------------------ *)
 Lemma sup_entries_spec recs w ds ents :
@@ -757,3 +763,441 @@ Proof.
     try discriminate Ht; auto; left; now apply -> in_rev.
 Qed.
 End Propagates.
+
+
+Lemma updN_all_keys {V} (l m : list (N * V)) d :
+  In d (map fst (updN_all m l)) -> In d (map fst m) \/ In d (map fst l).
+Proof.
+  unfold updN_all. revert m. induction l as [|[k x] l IH]; cbn [fold_left fst snd map]; intros m H; [now left|].
+  destruct (IH _ H) as [H1 | H1]; [|right; now right].
+  rewrite updN_keys in H1. destruct (memN k (map fst m)); [now left|].
+  apply in_app_iff in H1. destruct H1 as [H1 | [<- | []]]; [now left | right; now left].
+Qed.
+
+(* ---- unrelated_not_executed, generic in what is known about the thorough pass of step i --------------- *)
+Section UnrelatedGen.
+Variables (v : variant) (cfg : config) (recs world : list (dep * wval)) (i : step) (c : stepcfg).
+Variable J : rstate -> Prop.
+Hypothesis Hc : nth_error cfg i = Some c.
+Hypothesis Hna : rc_always (rcond c) = false.
+Hypothesis Heff : forall k ck d, nth_error cfg k = Some ck -> In d (s_deps c) -> In d (map fst (s_effs ck)) -> In k (s_edges c).
+
+Definition frame (σ : rstate) : Prop := forall d, In d (s_deps c) -> getN (r_world σ) d = getN world d.
+Hypothesis HJ : forall σ k, ran_inv σ -> frame σ -> J σ -> frame (event v cfg recs σ k) -> J (event v cfg recs σ k).
+Hypothesis Hpass : forall σ ents, J σ -> frame σ -> getL (r_lst σ) i = LSupChanged ->
+  tho_entries recs (r_world σ) (targets_of v c σ) = Some ents -> existsb (fun e => changed (snd e)) ents = false.
+
+Definition ugen_inv (σ : rstate) : Prop :=
+  ran_inv σ /\ (upstream_ran c σ \/ (frame σ /\ J σ /\ ~ In i (r_exec σ))).
+
+Lemma ugen_inv_event σ k : ugen_inv σ -> ugen_inv (event v cfg recs σ k).
+Proof.
+  intros [Hr Hcase]. split; [now apply ran_inv_event|].
+  destruct Hcase as [Hu | [Hf [Hj Hni]]]; [left; now apply (upstream_ran_mono v cfg recs c)|].
+  (* the world at the dependencies of i *)
+  assert (Hf' : upstream_ran c (event v cfg recs σ k) \/ frame (event v cfg recs σ k)).
+  { destruct (event_exec v cfg recs σ k) as [[_ Ew] | [ck [Hck [Ee [Ew _]]]]].
+    - right. intros d Hd. rewrite Ew. now apply Hf.
+    - destruct (in_dec Nat.eq_dec k (s_edges c)) as [Hin | Hnin].
+      + left. exists k. split; [assumption|]. rewrite Ee. now left.
+      + right. intros d Hd. rewrite Ew. rewrite getN_updN_all_notin; [now apply Hf|].
+        intros X. apply Hnin. eapply Heff; eauto. }
+  destruct Hf' as [Hu | Hf']; [now left|].
+  (* is i executed by this event? *)
+  destruct (in_dec Nat.eq_dec i (r_exec (event v cfg recs σ k))) as [Hi | Hni']; [|right; split; [assumption|]; split; [now apply HJ | assumption]].
+  left. destruct (Nat.eq_dec k i) as [->|Hne].
+  2:{ exfalso. destruct (event_exec v cfg recs σ k) as [[Ee _] | [ck [_ [Ee _]]]]; rewrite Ee in Hi;
+      [contradiction | destruct Hi; [congruence | contradiction]]. }
+  revert Hi. unfold event. rewrite Hc. destruct (getL (r_lst σ) i) eqn:Hs; try (intros; contradiction).
+  - unfold sup_phase, decide_not_changed.
+    destruct (rc_never (rcond c)) eqn:Hn; [cbn; intros; contradiction|].
+    destruct (negb (forallb _ (s_edges c))); [intros; contradiction|].
+    destruct (negb (forallb _ (s_edges c)) && _); [cbn; intros; contradiction|].
+    destruct (no_deps c) eqn:Hnd; [rewrite (no_deps_forced c Hnd Hn) in Hna; discriminate|].
+    destruct (sup_entries recs (r_world σ) (s_deps c)) as [ents|]; [|cbn; intros; contradiction].
+    destruct (existsb _ ents); [cbn; intros; contradiction|].
+    rewrite Hna. cbn [andb].
+    destruct (existsb _ (s_edges c)) eqn:Hx; [|cbn; intros; contradiction].
+    intros _. destruct (existsb_has_run_exec _ _ Hr Hx) as [j [Hj1 Hj2]].
+    exists j. split; [assumption|]. unfold do_run. cbn [r_exec]. now right.
+  - rewrite tho_phase_eq.
+    destruct (tho_entries _ _ _) as [ents|] eqn:Ht; [|cbn; intros; contradiction].
+    cbn zeta. rewrite (Hpass σ ents Hj Hf Hs Ht). unfold decide_not_changed. rewrite Hna.
+    destruct (v_consult v && existsb _ (s_edges c)) eqn:Hx; [|cbn; intros; contradiction].
+    intros _. apply andb_prop in Hx. destruct Hx as [_ Hx].
+    destruct (existsb_has_run_exec (set_diffs σ _) _ Hr Hx) as [j [Hj1 Hj2]].
+    exists j. split; [assumption|]. unfold do_run. cbn [r_exec]. now right.
+Qed.
+
+Lemma ugen_inv_run order : forall σ, ugen_inv σ -> ugen_inv (run_events v cfg recs σ order).
+Proof.
+  induction order as [|k rest IH]; intros σ H; [exact H|]. cbn [run_events fold_left]. apply IH. now apply ugen_inv_event.
+Qed.
+
+Lemma ugen_conclusion order :
+  J (init_state world) ->
+  In i (o_exec (run v cfg recs world order)) ->
+  exists j, In j (s_edges c) /\ In j (o_exec (run v cfg recs world order)).
+Proof.
+  intros HJ0. unfold run, finish. cbn [o_exec]. intros Hi. apply in_rev in Hi.
+  assert (H0 : ugen_inv (init_state world)).
+  { split; [intros j H; cbn in H; discriminate|]. right. split; [intros d _; reflexivity|]. split; [assumption | intros []]. }
+  destruct (ugen_inv_run order _ H0) as [_ [[j [H1 H2]] | [_ [_ Hni]]]]; [|contradiction].
+  exists j. split; [assumption | now apply -> in_rev].
+Qed.
+End UnrelatedGen.
+
+(* ---- the unrepaired code outside the class Known_P15 ------------------------------------------------------- *)
+Section UnrelatedUnfixed.
+Variables (v : variant) (cfg : config) (recs world : list (dep * wval)) (i : step) (c : stepcfg).
+Hypothesis Hc : nth_error cfg i = Some c.
+Hypothesis Hna : rc_always (rcond c) = false.
+Hypothesis Hsame : forall d, In d (s_deps c) -> tho_same recs world d = true.
+Hypothesis Heff : forall k ck d, nth_error cfg k = Some ck -> In d (s_deps c) -> In d (map fst (s_effs ck)) -> In k (s_edges c).
+Hypothesis Hclass : Known_P15 cfg recs world = false.
+
+Lemma nth_error_existsb {A} (p : A -> bool) l n x : nth_error l n = Some x -> p x = true -> existsb p l = true.
+Proof. intros H Hp. apply existsb_exists. exists x. split; [eapply nth_error_In; eauto | assumption]. Qed.
+
+(* case A: nothing of step i is even touched: it never reaches the thorough pass *)
+Lemma case_untouched order :
+  forallb (sup_same recs world) (s_deps c) = true ->
+  In i (o_exec (run v cfg recs world order)) ->
+  exists j, In j (s_edges c) /\ In j (o_exec (run v cfg recs world order)).
+Proof.
+  intros Hss.
+  apply (ugen_conclusion v cfg recs world i c (fun σ => getL (r_lst σ) i <> LSupChanged) Hc Hna Heff).
+  - intros σ k Hr Hf Hj _. destruct (Nat.eq_dec k i) as [->|Hne]; [|now rewrite event_lst_other].
+    destruct (getL (r_lst σ) i) eqn:Hs; try (rewrite event_lst_absorb by (now rewrite Hs); now rewrite Hs).
+    unfold event. rewrite Hc, Hs. unfold sup_phase, decide_not_changed, do_run, set_state, set_diffs.
+    destruct (rc_never (rcond c)); [cbn [r_lst getL]; rewrite Nat.eqb_refl; discriminate|].
+    destruct (negb (forallb _ (s_edges c))); [now rewrite Hs|].
+    destruct (negb (forallb _ (s_edges c)) && _); [cbn [r_lst getL]; rewrite Nat.eqb_refl; discriminate|].
+    destruct (no_deps c); [cbn [r_lst getL]; rewrite Nat.eqb_refl; destruct (s_ok c); discriminate|].
+    destruct (sup_entries recs (r_world σ) (s_deps c)) as [ents|] eqn:He; [|cbn [r_lst getL]; rewrite Nat.eqb_refl; discriminate].
+    assert (Hx : existsb (fun e => changed (snd e)) ents = false).
+    { apply existsb_changed_false. intros d e Hin. destruct (sup_entries_spec _ _ _ _ He) as [Hk Hspec].
+      destruct (Hspec _ _ Hin) as [wv [Hwv ->]].
+      assert (Hd : In d (s_deps c)) by (rewrite <- Hk; change d with (fst (d, sup_compare (getN recs d) wv)); now apply in_map).
+      rewrite (Hf _ Hd) in Hwv. rewrite forallb_forall in Hss. specialize (Hss _ Hd). unfold sup_same in Hss.
+      rewrite Hwv in Hss. destruct (getN recs d) as [[rs rt]|]; [|discriminate]. destruct wv as [ws wt].
+      cbn [sup_compare fst]. rewrite Hss. reflexivity. }
+    rewrite Hx. break_match; cbn [r_lst getL]; rewrite Nat.eqb_refl; discriminate.
+  - intros σ ents Hj _ Hs. contradiction.
+  - cbn. discriminate.
+Qed.
+
+(* case B: step i is touched: then (class) no step has a really changed dependency and no command has effects *)
+Lemma case_touched order :
+  (forall k ck, nth_error cfg k = Some ck -> s_effs ck = [] /\ forall d, In d (s_deps ck) -> tho_same recs world d = true) ->
+  In i (o_exec (run v cfg recs world order)) ->
+  exists j, In j (s_edges c) /\ In j (o_exec (run v cfg recs world order)).
+Proof.
+  intros Hall.
+  apply (ugen_conclusion v cfg recs world i c
+           (fun σ => r_world σ = world /\ forall d, In d (map fst (r_diffs σ)) -> tho_same recs world d = true) Hc Hna Heff).
+  - intros σ k _ _ [Hw Hd] _. split.
+    + destruct (event_exec v cfg recs σ k) as [[_ ->] | [ck [Hck [_ [-> _]]]]]; [assumption|].
+      destruct (Hall _ _ Hck) as [-> _]. exact Hw.
+    + intros d Hin.
+      destruct (event_diffs v cfg recs σ k) as [E | [[ck [ents [Hck [_ [Hs E]]]]] | [ck [ents [Hck [_ [Ht E]]]]]]];
+        rewrite E in Hin; [now apply Hd| |].
+      * apply updN_all_keys in Hin. destruct Hin as [Hin | Hin]; [now apply Hd|].
+        destruct (sup_entries_spec _ _ _ _ Hs) as [Hk _]. apply (proj2 (Hall _ _ Hck)). rewrite <- Hk. exact Hin.
+      * apply updN_all_keys in Hin. destruct Hin as [Hin | Hin]; [now apply Hd|].
+        destruct (tho_entries_spec _ _ _ _ Ht) as [Hk _].
+        assert (Hin' : In d (map fst (targets_of v ck σ))) by (rewrite <- Hk; exact Hin). clear Hin. rename Hin' into Hin.
+        apply Hd. apply in_map_iff in Hin. destruct Hin as [x [<- Hx]]. apply in_map. now apply targets_sub in Hx.
+  - intros σ ents [Hw Hd] _ _ Ht. apply existsb_changed_false. intros d e' Hin.
+    destruct (tho_entries_spec _ _ _ _ Ht) as [_ [Hb _]]. destruct (Hb _ _ Hin) as [e [He Hr]].
+    apply targets_sub in He. assert (Hk : In d (map fst (r_diffs σ))) by (change d with (fst (d, e)); now apply in_map).
+    specialize (Hd _ Hk). unfold tho_result in Hr. destruct (changed e); [|now subst].
+    destruct Hr as [wv [Hwv ->]]. rewrite Hw in Hwv. unfold tho_same in Hd. rewrite Hwv in Hd.
+    destruct (getN recs d) as [[rs rt]|]; [|discriminate]. destruct wv as [ws wt]. cbn [tho_compare snd]. rewrite Hd. reflexivity.
+  - split; [reflexivity | intros d []].
+Qed.
+
+Lemma unrelated_outside_P15_lemma order :
+  In i (o_exec (run v cfg recs world order)) ->
+  exists j, In j (s_edges c) /\ In j (o_exec (run v cfg recs world order)).
+Proof.
+  destruct (forallb (sup_same recs world) (s_deps c)) eqn:Hss; [now apply case_untouched|].
+  apply case_touched. intros k ck Hck.
+  assert (Ht : touch_only recs world c = true).
+  { unfold touch_only. rewrite Hss. rewrite andb_true_r. apply forallb_forall. exact Hsame. }
+  unfold Known_P15 in Hclass. rewrite (nth_error_existsb _ _ _ _ Hc Ht) in Hclass. cbn [andb] in Hclass.
+  apply orb_false_elim in Hclass. destruct Hclass as [Hrc Hef]. split.
+  - destruct (s_effs ck) eqn:E; [reflexivity|]. exfalso.
+    assert (X : existsb (fun c0 => match s_effs c0 with [] => false | _ => true end) cfg = true)
+      by (apply (nth_error_existsb _ _ _ _ Hck); now rewrite E).
+    congruence.
+  - intros d Hd. destruct (tho_same recs world d) eqn:E; [reflexivity|]. exfalso.
+    assert (X : existsb (really_changed recs world) cfg = true).
+    { apply (nth_error_existsb _ _ _ _ Hck). unfold really_changed.
+      destruct (forallb (tho_same recs world) (s_deps ck)) eqn:F; [|reflexivity].
+      rewrite forallb_forall in F. rewrite (F _ Hd) in E. discriminate. }
+    congruence.
+Qed.
+End UnrelatedUnfixed.
+
+
+Lemma getN_delN {V} (m : list (N * V)) k k' : getN (delN m k) k' = if N.eqb k k' then None else getN m k'.
+Proof.
+  induction m as [|[k0 v0] m IH]; cbn [delN getN]; [now destruct (N.eqb k k')|].
+  destruct (N.eqb_spec k0 k) as [->|Hne].
+  - rewrite IH. destruct (N.eqb k k'); reflexivity.
+  - cbn [getN]. destruct (N.eqb_spec k0 k') as [->|Hne']; [|exact IH].
+    destruct (N.eqb_spec k k'); [congruence | reflexivity].
+Qed.
+
+Lemma apply_entry_other recs d' e d : d' <> d -> getN (apply_entry recs (d', e)) d = getN recs d.
+Proof.
+  intros Hne. unfold apply_entry. cbn [fst snd]. destruct (uwa_action _ _ _); [reflexivity| |].
+  - destruct e; try reflexivity; rewrite getN_updN; destruct (N.eqb_spec d' d); congruence.
+  - rewrite getN_delN. destruct (N.eqb_spec d' d); congruence.
+Qed.
+
+Lemma end_fold_getN (m : list (dep * dentry)) : forall recs d, NoDup (map fst m) ->
+  getN (fold_left apply_entry m recs) d =
+  match getN m d with Some e => getN (apply_entry recs (d, e)) d | None => getN recs d end.
+Proof.
+  induction m as [|[d0 e0] m IH]; intros recs d Hnd; cbn [fold_left getN map fst] in *; [reflexivity|].
+  inversion Hnd as [|? ? Hni Hnd']; subst. rewrite IH by assumption.
+  destruct (N.eqb_spec d0 d) as [->|Hne].
+  - rewrite (notin_getN_none m d Hni). reflexivity.
+  - destruct (getN m d) as [e|]; [|now apply apply_entry_other].
+    unfold apply_entry at 1 3. cbn [fst snd]. destruct (uwa_action (kind_of e) _ _); [now apply apply_entry_other| |].
+    + destruct e; try (now apply apply_entry_other); rewrite !getN_updN, N.eqb_refl; reflexivity.
+    + rewrite !getN_delN, N.eqb_refl. reflexivity.
+Qed.
+
+(* ---- a fully successful run leaves records that agree with the world ------------------------------------- *)
+Definition coherent (recs : list (dep * wval)) (d : dep) (w : wval) : Prop :=
+  match getN recs d with
+  | Some (rs, rt) => N.eqb rs (fst w) = true -> N.eqb rt (snd w) = true
+  | None => True
+  end.
+
+Section Settles.
+Variables (v : variant) (cfg : config) (recs world : list (dep * wval)) (i : step) (c : stepcfg) (d : dep).
+Hypothesis Hc : nth_error cfg i = Some c.
+Hypothesis Hd : In d (s_deps c).
+Hypothesis Hn : rc_never (rcond c) = false.
+Hypothesis Heff : forall k ck, nth_error cfg k = Some ck -> In d (map fst (s_effs ck)) -> In k (s_edges c).
+
+Definition origin (w : wval) : Prop :=
+  getN world d = Some w \/ exists k ck, nth_error cfg k = Some ck /\ In (d, w) (s_effs ck).
+Hypothesis Hcoh : forall w, origin w -> coherent recs d w.
+
+Definition entry_ok (e : dentry) (w : wval) : Prop :=
+  match e with
+  | DIdentical | DSkipped => match getN recs d with Some (_, rt) => N.eqb rt (snd w) = true | None => False end
+  | DDifferent a | DRecordMissing a => a = w
+  | DActualMissing => False
+  end.
+
+Lemma sup_compare_ok w : coherent recs d w -> entry_ok (sup_compare (getN recs d) w) w.
+Proof.
+  unfold coherent, entry_ok, sup_compare. destruct (getN recs d) as [[rs rt]|] eqn:E; [|reflexivity].
+  intros H. destruct (N.eqb rs (fst w)); [now apply H | reflexivity].
+Qed.
+
+Lemma tho_compare_ok w : entry_ok (tho_compare (getN recs d) w) w.
+Proof.
+  unfold entry_ok, tho_compare. destruct (getN recs d) as [[rs rt]|] eqn:E; [|reflexivity].
+  destruct (N.eqb rt (snd w)) eqn:F; reflexivity.
+Qed.
+
+Lemma unchanged_ok e w : changed e = false -> entry_ok e w -> entry_ok DSkipped w.
+Proof. destruct e; cbn; intros H X; try discriminate H; exact X. Qed.
+
+Definition edges_terminal (σ : rstate) : Prop := forall k, In k (s_edges c) -> is_terminal (getL (r_lst σ) k) = true.
+Definition origin_inv (σ : rstate) : Prop := forall w, getN (r_world σ) d = Some w -> origin w.
+Definition checked (σ : rstate) : Prop :=
+  exists w e, getN (r_world σ) d = Some w /\ edges_terminal σ /\ getN (r_diffs σ) d = Some e /\ entry_ok e w.
+Definition settle_inv (σ : rstate) : Prop :=
+  NoDup (map fst (r_diffs σ)) /\ origin_inv σ /\
+  match getL (r_lst σ) i with LSupChanged | LDone _ => checked σ | _ => True end.
+
+Lemma origin_inv_event σ k : origin_inv σ -> origin_inv (event v cfg recs σ k).
+Proof.
+  intros H w. destruct (event_exec v cfg recs σ k) as [[_ ->] | [ck [Hck [_ [-> _]]]]]; [apply H|].
+  destruct (getN_updN_all_cases (s_effs ck) (r_world σ) d) as [[_ ->] | [e [Hin ->]]]; [apply H|].
+  intros E. injection E as <-. right. eauto.
+Qed.
+
+(* A: once the dependency steps of i are all finished, the world at d and their states are frozen *)
+Lemma frozen σ k w : edges_terminal σ -> getN (r_world σ) d = Some w ->
+  edges_terminal (event v cfg recs σ k) /\ getN (r_world (event v cfg recs σ k)) d = Some w.
+Proof.
+  intros Ht Hw. split.
+  - intros k' Hk'. rewrite event_lst_absorb; [now apply Ht | apply terminal_settled; now apply Ht].
+  - destruct (event_exec v cfg recs σ k) as [[_ ->] | [ck [Hck [_ [-> [Hns _]]]]]]; [assumption|].
+    rewrite getN_updN_all_notin; [assumption|]. intros X.
+    pose proof (Ht _ (Heff _ _ Hck X)) as T. apply terminal_settled in T. congruence.
+Qed.
+
+(* B: whatever an event writes at key d stays consistent with the (frozen) world *)
+Lemma entry_written_ok σ k w e :
+  NoDup (map fst (r_diffs σ)) -> getN (r_world σ) d = Some w -> origin w ->
+  getN (r_diffs σ) d = Some e -> entry_ok e w ->
+  exists e', getN (r_diffs (event v cfg recs σ k)) d = Some e' /\ entry_ok e' w.
+Proof.
+  intros Hnd Hw Ho He Hok.
+  destruct (event_diffs v cfg recs σ k) as [-> | [[ck [ents [_ [_ [Hs ->]]]]] | [ck [ents [_ [_ [Ht ->]]]]]]].
+  - eauto.
+  - destruct (getN_updN_all_cases ents (r_diffs σ) d) as [[_ ->] | [e' [Hin ->]]]; [eauto|].
+    exists e'. split; [reflexivity|]. destruct (sup_entries_spec _ _ _ _ Hs) as [_ Hspec].
+    destruct (Hspec _ _ Hin) as [wv [Hwv ->]]. rewrite Hw in Hwv. injection Hwv as <-.
+    apply sup_compare_ok. now apply Hcoh.
+  - destruct (getN_updN_all_cases ents (r_diffs σ) d) as [[_ ->] | [e' [Hin ->]]]; [eauto|].
+    exists e'. split; [reflexivity|]. destruct (tho_entries_spec _ _ _ _ Ht) as [_ [Hb _]].
+    destruct (Hb _ _ Hin) as [e0 [H0 Hr]]. apply targets_sub in H0.
+    rewrite (In_getN_nodup _ _ _ Hnd H0) in He. injection He as ->.
+    unfold tho_result in Hr. destruct (changed e) eqn:Hce.
+    + destruct Hr as [wv [Hwv ->]]. rewrite Hw in Hwv. injection Hwv as <-. apply tho_compare_ok.
+    + subst e'. now apply (unchanged_ok e).
+Qed.
+
+Lemma checked_event σ k : NoDup (map fst (r_diffs σ)) -> origin_inv σ -> checked σ -> checked (event v cfg recs σ k).
+Proof.
+  intros Hnd Ho [w [e [Hw [Ht [He Hok]]]]].
+  destruct (frozen σ k w Ht Hw) as [Ht' Hw'].
+  destruct (entry_written_ok σ k w e Hnd Hw (Ho _ Hw) He Hok) as [e' [He' Hok']].
+  exists w, e'. repeat split; assumption.
+Qed.
+
+(* C: the first phase of step i *)
+Lemma first_phase σ :
+  NoDup (map fst (r_diffs σ)) -> origin_inv σ -> getL (r_lst σ) i = LInit ->
+  match getL (r_lst (event v cfg recs σ i)) i with LSupChanged | LDone _ => checked (event v cfg recs σ i) | _ => True end.
+Proof.
+  intros Hnd Ho Hs.
+  destruct (getL (r_lst (event v cfg recs σ i)) i) eqn:Hs'; try exact I.
+  all: assert (Hpass : edges_terminal σ /\ exists ents, sup_entries recs (r_world σ) (s_deps c) = Some ents /\
+                                          r_diffs (event v cfg recs σ i) = updN_all (r_diffs σ) ents).
+  all: try solve [
+    revert Hs'; unfold event; rewrite Hc, Hs; unfold sup_phase, decide_not_changed; rewrite Hn;
+    destruct (forallb (fun j0 => is_terminal (getL (r_lst σ) j0)) (s_edges c)) eqn:Hall; cbn [negb]; [|rewrite Hs; discriminate];
+    destruct (negb (forallb _ (s_edges c)) && _); [cbn [set_state r_lst getL]; rewrite Nat.eqb_refl; discriminate|];
+    rewrite (no_deps_false c d Hd);
+    destruct (sup_entries recs (r_world σ) (s_deps c)) as [ents|] eqn:He; [|cbn [set_state r_lst getL]; rewrite Nat.eqb_refl; discriminate];
+    intros _; split; [intros k' Hk'; exact (forallb_In_true _ _ _ Hall Hk') | exists ents; split; [reflexivity|]];
+    unfold do_run, set_state, set_diffs; break_match; reflexivity ].
+  all: destruct Hpass as [Ht [ents [He Hdf]]];
+    destruct (sup_entries_spec _ _ _ _ He) as [Hk Hspec];
+    assert (Hin : In d (map fst ents)) by (rewrite Hk; exact Hd);
+    destruct (getN_updN_all_in ents (r_diffs σ) d Hin) as [e [Hine Hg]];
+    destruct (Hspec _ _ Hine) as [wv [Hwv ->]];
+    destruct (frozen σ i wv Ht Hwv) as [Ht' Hw'];
+    exists wv, (sup_compare (getN recs d) wv); repeat split; try assumption;
+      [rewrite Hdf; exact Hg | apply sup_compare_ok; apply Hcoh; now apply Ho].
+Qed.
+
+Lemma settle_inv_event σ k : settle_inv σ -> settle_inv (event v cfg recs σ k).
+Proof.
+  intros [Hnd [Ho Hst]]. split; [now apply event_diffs_nodup|]. split; [now apply origin_inv_event|].
+  destruct (Nat.eq_dec k i) as [->|Hne].
+  2:{ rewrite event_lst_other by assumption. destruct (getL (r_lst σ) i); try exact I; now apply checked_event. }
+  destruct (getL (r_lst σ) i) eqn:Hs.
+  - now apply first_phase.
+  - destruct (getL (r_lst (event v cfg recs σ i)) i); try exact I; now apply checked_event.
+  - rewrite event_lst_absorb by (now rewrite Hs). rewrite Hs. now apply checked_event.
+  - rewrite event_lst_absorb by (now rewrite Hs). now rewrite Hs.
+  - rewrite event_lst_absorb by (now rewrite Hs). now rewrite Hs.
+Qed.
+
+Lemma settle_inv_run order : forall σ, settle_inv σ -> settle_inv (run_events v cfg recs σ order).
+Proof.
+  induction order as [|k rest IH]; intros σ H; [exact H|]. cbn [run_events fold_left]. apply IH. now apply settle_inv_event.
+Qed.
+
+Lemma successful_run_settles_lemma order :
+  let o := run v cfg recs world order in
+  forallb is_done (o_states o) = true -> tho_same (o_records o) (o_world o) d = true.
+Proof.
+  cbn zeta. unfold run, finish. cbn [o_states o_records o_world]. rewrite forallb_map_eq. intros Hall.
+  set (σ := run_events v cfg recs (init_state world) order) in *.
+  assert (H0 : settle_inv (init_state world)).
+  { split; [constructor|]. split; [intros w Hw; now left | exact I]. }
+  destruct (settle_inv_run order _ H0) as [Hnd [_ Hst]]. fold σ in Hnd, Hst.
+  assert (Hlt : i < length cfg) by (apply nth_error_Some; congruence).
+  assert (Hdone : is_done (getL (r_lst σ) i) = true).
+  { rewrite forallb_forall in Hall. apply Hall. unfold steps_of. apply in_seq. lia. }
+  destruct (getL (r_lst σ) i); try discriminate Hdone.
+  destruct Hst as [w [e [Hw [_ [He Hok]]]]].
+  unfold end_records, all_done. rewrite Hall. rewrite andb_false_r.
+  unfold tho_same. rewrite Hw. rewrite end_fold_getN by assumption. rewrite He.
+  unfold apply_entry. cbn [fst snd]. destruct w as [ws wt].
+  destruct e; cbn in Hok; try contradiction; cbn [kind_of uwa_action end_add_new end_remove_missing].
+  - destruct (getN recs d) as [[rs rt]|]; [exact Hok | contradiction].
+  - subst a. rewrite getN_updN, N.eqb_refl. apply N.eqb_refl.
+  - subst a. rewrite getN_updN, N.eqb_refl. apply N.eqb_refl.
+  - destruct (getN recs d) as [[rs rt]|]; [exact Hok | contradiction].
+Qed.
+End Settles.
+
+
+(* ---- rerun_on_unchanged_world: two consecutive runs --------------------------------------------------------- *)
+Definition effects_downstream (cfg : config) : Prop :=
+  forall i c k ck d, nth_error cfg i = Some c -> nth_error cfg k = Some ck ->
+                     In d (s_deps c) -> In d (map fst (s_effs ck)) -> In k (s_edges c).
+Definition edits_visible (cfg : config) (recs world : list (dep * wval)) : Prop :=
+  forall i c d w, nth_error cfg i = Some c -> In d (s_deps c) ->
+                  (getN world d = Some w \/ exists k ck, nth_error cfg k = Some ck /\ In (d, w) (s_effs ck)) ->
+                  coherent recs d w.
+
+Lemma rerun_lemma v cfg recs world order1 order2 :
+  effects_downstream cfg -> edits_visible cfg recs world ->
+  let o1 := run v cfg recs world order1 in
+  forallb is_done (o_states o1) = true ->
+  v_own_only v = true \/ Known_P15 cfg (o_records o1) (o_world o1) = false ->
+  let o2 := run v cfg (o_records o1) (o_world o1) order2 in
+  forall i c, nth_error cfg i = Some c -> In i (o_exec o2) ->
+              rc_always (rcond c) = true \/ exists j, In j (s_edges c) /\ In j (o_exec o2).
+Proof.
+  intros Heff Hvis o1 Hdone Hv o2 i c Hc Hi.
+  destruct (rc_always (rcond c)) eqn:Ha; [now left|]. right.
+  destruct (rc_never (rcond c)) eqn:Hn.
+  { exfalso. apply never_iff_when in Hn. exact (never_is_never_lemma v cfg _ _ order2 i c Hc Hn Hi). }
+  assert (Hsame : forall d, In d (s_deps c) -> tho_same (o_records o1) (o_world o1) d = true).
+  { intros d Hd. apply (successful_run_settles_lemma v cfg recs world i c d Hc Hd Hn).
+    - intros k ck Hck X. exact (Heff i c k ck d Hc Hck Hd X).
+    - intros w Ho. exact (Hvis i c d w Hc Hd Ho).
+    - exact Hdone. }
+  assert (Heff' : forall k ck d, nth_error cfg k = Some ck -> In d (s_deps c) -> In d (map fst (s_effs ck)) -> In k (s_edges c)).
+  { intros k ck d Hck Hd X. exact (Heff i c k ck d Hc Hck Hd X). }
+  destruct Hv as [Hown | Hcls].
+  - exact (unrelated_not_executed_lemma v cfg _ _ i c Hown Hc Ha Hsame Heff' order2 Hi).
+  - exact (unrelated_outside_P15_lemma v cfg _ _ i c Hc Ha Hsame Heff' Hcls order2 Hi).
+Qed.
+
+(* no by-dependencies step has an edge to a step that can run at all: then only always / no-dependency steps run *)
+Definition Known_downstream_edge (cfg : config) : bool :=
+  existsb (fun c => negb (rc_always (rcond c)) && negb (rc_never (rcond c)) &&
+                    existsb (fun j => match nth_error cfg j with Some cj => negb (rc_never (rcond cj)) | None => false end)
+                            (s_edges c)) cfg.
+
+Lemma rerun_only_forced_lemma v cfg recs world order1 order2 :
+  effects_downstream cfg -> edits_visible cfg recs world ->
+  let o1 := run v cfg recs world order1 in
+  forallb is_done (o_states o1) = true ->
+  v_own_only v = true \/ Known_P15 cfg (o_records o1) (o_world o1) = false ->
+  Known_downstream_edge cfg = false ->
+  let o2 := run v cfg (o_records o1) (o_world o1) order2 in
+  forall i c, nth_error cfg i = Some c -> In i (o_exec o2) -> rc_always (rcond c) = true.
+Proof.
+  intros Heff Hvis o1 Hdone Hv Hk o2 i c Hc Hi.
+  destruct (rerun_lemma v cfg recs world order1 order2 Heff Hvis Hdone Hv i c Hc Hi) as [Ha | [j [Hj1 Hj2]]]; [exact Ha|].
+  destruct (rc_always (rcond c)) eqn:Ha; [reflexivity|]. exfalso.
+  destruct (rc_never (rcond c)) eqn:Hn.
+  { apply never_iff_when in Hn. exact (never_is_never_lemma v cfg _ _ order2 i c Hc Hn Hi). }
+  (* j was executed, so it is a step of the pipeline that is not marked never *)
+  destruct (exec_inv_run_events v cfg (o_records o1) order2 _ (exec_inv_init cfg (o_world o1))) as [H1 _].
+  unfold o2, run, finish in Hj2. cbn [o_exec] in Hj2. apply in_rev in Hj2.
+  destruct (H1 _ Hj2) as [cj [Hcj Hnj]].
+  assert (X : Known_downstream_edge cfg = true).
+  { unfold Known_downstream_edge. apply (nth_error_existsb _ _ _ _ Hc). rewrite Ha, Hn. cbn [negb andb].
+    apply existsb_exists. exists j. split; [assumption|]. now rewrite Hcj, Hnj. }
+  congruence.
+Qed.
